@@ -166,7 +166,7 @@ def run(ctx):
                     one(ctx, fxs[cfg], cfg, json.dumps(e), "names")
     ctx.sample({"bclass": "names", "body": json.dumps({"jsonrpc": "2.0", "method": "sub._hidden", "id": 1})})
     # 2. generated registries: signatures x arities, exception classes
-    for r in range(ctx.pick(6, 60)):
+    for r in range(ctx.pick(6, 200)):
         mode = "default"  # C05 states its codes for registries of functions and instances, not custom dispatchers
         v = rng.choice([2.0, 1.0])
         reg = gen_registry(rng, mode)
@@ -199,10 +199,10 @@ def run(ctx):
     for idx in range((ctx.seed * 5 + ctx.shard) % step, size, step * ctx.nshards):
         cfg = cfgs[idx % 2]
         one(ctx, fxs[cfg], cfg, json.dumps(reqgen.matrix_entry(idx)), "matrix")
-    for i in range(ctx.pick(800, 15000)):
+    for i in range(ctx.pick(800, 80000)):
         cfg = rng.choice(cfgs)
         one(ctx, fxs[cfg], cfg, reqgen.random_text(rng), "text")
-    for i in range(ctx.pick(600, 12000)):
+    for i in range(ctx.pick(600, 60000)):
         cfg = rng.choice(cfgs)
         kinds = [rng.choice(reqgen.ALL_KINDS) for _ in range(rng.randint(1, 5))]
         entries = [reqgen.entry_of(k, rng) for k in kinds]
